@@ -2,6 +2,7 @@
  * Component harness `cjsontree`: the REAL tree layer of /repo/src/json/cJSON.c (#included, nothing edited):
  * cJSON_Duplicate / cJSON_Delete under an allocation hook that counts calls and live blocks and fails the
  * calls a schedule names; get_object_item (both comparisons); cJSON_GetArraySize / cJSON_GetArrayItem.
+ * add_item_to_object (key copy may fail; the item's previous name is released through the hook).
  * Script and answers: see lean/Cjet/Drv/Cjsontree.lean (the model driver reads the same script).
  * The original item is built with plain malloc by the harness and released by the harness, so the flag
  * bits cJSON_IsReference / cJSON_StringIsConst can be set freely; only what cJSON_Duplicate and the
@@ -15,7 +16,8 @@
 
 #include "json/cJSON.c"
 
-static unsigned long h_next, h_live;
+static unsigned long h_next;
+static long h_live;
 static unsigned long fails[64];
 static unsigned nfails;
 
@@ -153,13 +155,13 @@ int main(void)
 			h_next = 0; h_live = 0;
 			cJSON *c = cJSON_Duplicate(it, op[0] == 'D');
 			if (!c) {
-				printf("NULL next=%lu live=%lu\n", h_next, h_live);
+				printf("NULL next=%lu live=%ld\n", h_next, h_live);
 			} else {
-				unsigned long n = h_next, l = h_live;
+				unsigned long n = h_next; long l = h_live;
 				fputs("ok ", stdout);
 				dump(c);
 				cJSON_Delete(c);
-				printf(" next=%lu live=%lu del=%lu\n", n, l, l - h_live);
+				printf(" next=%lu live=%ld del=%ld\n", n, l, l - h_live);
 			}
 			destroy(it);
 		} else if (strcmp(op, "G") == 0) {
@@ -171,6 +173,24 @@ int main(void)
 			if (r) printf("some %d\n", index_of(it, r)); else puts("none");
 			free(key);
 			destroy(it);
+		} else if (strcmp(op, "O") == 0) {
+			parse_fails(next_tok(&sp));
+			int ck = atoi(next_tok(&sp));
+			char *key = opt_str(next_tok(&sp));
+			cJSON *obj = build(&sp);
+			cJSON *it = build(&sp);
+			if (!obj || !it || !key) { puts("ERROR bad O"); continue; }
+			char *old_const = (it->type & cJSON_StringIsConst) ? it->string : NULL;   /* cJSON does not own it: ours to release */
+			h_next = 0; h_live = 1000;
+			cJSON_bool ok = add_item_to_object(obj, key, it, &global_hooks, ck);
+			printf("%s next=%lu live=%ld | ", ok ? "ok" : "FAIL", h_next, h_live);
+			dump(obj);
+			fputs(" | ", stdout);
+			if (ok && index_of(obj, it) >= 0 && it->next == NULL) puts("attached");
+			else { fputs("orphan ", stdout); dump(it); putchar('\n'); }
+			if (!ok) destroy(it); else free(old_const);
+			if (!(ok && ck)) free(key);      /* a constant key that was attached is released with the item */
+			destroy(obj);
 		} else if (strcmp(op, "A") == 0) {
 			int idx = atoi(next_tok(&sp));
 			cJSON *it = build(&sp);
